@@ -22,6 +22,7 @@ package main
 import (
 	"fmt"
 	"go/ast"
+	"go/constant"
 	"go/types"
 	"regexp"
 	"sort"
@@ -753,10 +754,45 @@ func c03Placement(c *Ctx) {
 		})
 	}
 	if f := c.P.Func(pkgOpenAPI, "Generator.processMethod"); f != nil {
-		ast.Inspect(c.P.Decls[f].Body, func(n ast.Node) bool {
-			if ifs, ok := n.(*ast.IfStmt); ok && strings.Contains(types.ExprString(ifs.Cond), "httpMethod") {
-				if vs := c03VerbSet(c, c.P.DeclPkg[f].TypesInfo, ifs.Cond); len(vs) > 0 && bodySets["OpenAPI"] == nil {
-					bodySets["OpenAPI"] = vs
+		// by role: the condition (if-chain or switch arm over the verb) under which the operation's RequestBody is assigned
+		body := c.P.Decls[f].Body
+		finfo := c.P.DeclPkg[f].TypesInfo
+		parents := parentMap(body)
+		ast.Inspect(body, func(n ast.Node) bool {
+			as, ok := n.(*ast.AssignStmt)
+			if !ok || bodySets["OpenAPI"] != nil {
+				return true
+			}
+			isRB := false
+			for _, l := range as.Lhs {
+				if sel, ok := ast.Unparen(l).(*ast.SelectorExpr); ok && sel.Sel.Name == "RequestBody" {
+					isRB = true
+				}
+			}
+			if !isRB {
+				return true
+			}
+			for p := parents[ast.Node(as)]; p != nil; p = parents[p] {
+				switch x := p.(type) {
+				case *ast.IfStmt:
+					if as.Pos() >= x.Body.Pos() && as.End() <= x.Body.End() {
+						if vs := c03VerbSet(c, finfo, x.Cond); len(vs) > 0 {
+							bodySets["OpenAPI"] = vs
+							return true
+						}
+					}
+				case *ast.CaseClause:
+					var vs []string
+					for _, e := range x.List {
+						if tv, ok := finfo.Types[e]; ok && tv.Value != nil && tv.Value.Kind() == constant.String {
+							vs = append(vs, strings.ToUpper(constant.StringVal(tv.Value)))
+						}
+					}
+					if len(vs) > 0 && len(vs) == len(x.List) {
+						sort.Strings(vs)
+						bodySets["OpenAPI"] = vs
+						return true
+					}
 				}
 			}
 			return true
